@@ -484,7 +484,10 @@ Definition step (input : str) (base : option url) (override : option pstate) (m 
       end
   end.
 
-Inductive presult := POk (u : url) | PFail | POutOfFuel.
+(* PFail carries the record as modified up to the point of failure: with a state override
+   the Standard's parser works on the given url in place, so e.g. the host setter with
+   "h:99999" has already replaced the host when the port state fails *)
+Inductive presult := POk (u : url) | PFail (u : url) | POutOfFuel.
 
 (* "Keep running the state machine ... If after a run pointer points to the EOF code point,
    go to the next step. Otherwise, increase pointer by 1 and continue." *)
@@ -493,7 +496,7 @@ Fixpoint run (fuel : nat) (input : str) (base : option url) (override : option p
   | O => POutOfFuel
   | S f =>
     match step input base override m with
-    | Fail => PFail
+    | Fail => PFail (m_url m)
     | Ret u => POk u
     | Cont m' =>
         if (Z.of_nat (length input) <=? m_pointer m')%Z then POk (m_url m')
@@ -584,7 +587,7 @@ Definition potentially_strip (u : url) : url :=
   | PList _ => u
   end.
 
-Definition or_unchanged (u : url) (r : presult) : url := match r with POk u' => u' | _ => u end.
+Definition or_unchanged (u : url) (r : presult) : url := match r with POk u' => u' | PFail u' => u' | POutOfFuel => u end.
 
 Definition setter_href (u : url) (v : str) : option url :=
   match basic_parse v None with POk u' => Some u' | _ => None end.
